@@ -23,7 +23,8 @@ ST = {"ok": 0, "neg_sqrt": 1, "neg_exponent": 2, "exp_too_large": 3, "log_domain
       "int64_range": 13, "other": 99}
 
 # op name -> (code in C13/Corr.v, relative vm_compute cost)
-OPS = {"sqrt": (1, 1), "sqrt_bd": (2, 2), "sigfig": (3, 1)}
+OPS = {"sqrt": (1, 1), "sqrt_bd": (2, 2), "sigfig": (3, 1), "cmp_int": (4, 1), "cmp_bd": (5, 1),
+       "cmp_dec": (6, 1), "bsearch": (7, 6), "bsearch_bd": (8, 20)}
 
 
 # ---------------------------------------------------------------------------------------------
@@ -194,7 +195,7 @@ def gen_sqrt(r, n, op):
     vals += [-1, -2, -p, -top]
     # exact squares (j^2 as a value has root j exactly) and their neighbours, where the round-up correction flips
     for _ in range(n // 6):
-        j = loguniform(r, 1, maxbits // 2 - 61 if op == "sqrt" else 500)
+        j = loguniform(r, 1, maxbits // 2 - 61 if op == "sqrt" else (500 if r.chance(1, 10) else 100))
         vals += around([j * j * p // r.choice([1, p])], lo=0, hi=top)
     # raw values v with v*p a perfect square: v = m^2 / p needs p | m^2: m = j * sqrt(p)
     rootp = math.isqrt(p)
@@ -202,7 +203,7 @@ def gen_sqrt(r, n, op):
         j = loguniform(r, 1, 200)
         vals += around([j * j], lo=0, hi=top) if rootp * rootp == p else []
     while len(vals) < n - n // 20:
-        v = loguniform(r, 1, maxbits)
+        v = loguniform(r, 1, maxbits if op == "sqrt" or r.chance(1, 10) else 300)
         if v <= top:
             vals.append(v)
             if r.chance(1, 3):
@@ -245,13 +246,129 @@ def gen_sigfig(r, n):
     return out
 
 
+def gen_tol(r, unit, near=None):
+    """(hasAdd, add, hasMul, mul, dir): Dec tolerances (raw x 10^18); near = a |diff| (in Dec raw units) to sit next to"""
+    x = r.below(10)
+    has_add = 0 if x < 2 else 1
+    add = r.choice([0, 0, 1, P18, P18 // 2, 10 ** r.range(0, 30), r.range(0, 10 ** 20)])
+    if near is not None and r.chance(1, 3):
+        add = max(0, near + r.range(-1, 1))
+    has_mul = 1 if r.chance(1, 2) else 0
+    mul = r.choice([0, 1, 10 ** 10, 10 ** 15, 10 ** r.range(0, 19), r.range(0, P18)])
+    d = r.choice([0, 0, 1, 2, 1, 2, 3])
+    return [has_add, add, has_mul, mul, d]
+
+
+def gen_cmp(r, n, op):
+    """ErrTolerance.Compare / CompareBigDec / CompareDec (expected, actual, tolerance)"""
+    unit = {"cmp_int": 1, "cmp_bd": P36, "cmp_dec": P18}[op]
+    bits = {"cmp_int": 255, "cmp_bd": 1100 if r.chance(1, 8) else 400, "cmp_dec": 310}[op]
+    to_dec = {"cmp_int": P18, "cmp_bd": Fraction(1, P18), "cmp_dec": 1}[op]
+    out = []
+    while len(out) < n:
+        x = r.below(100)
+        if x < 10:
+            e = r.choice([0, 1, -1, unit, 2 * unit])
+            a = r.choice([0, 1, -1, unit, e, e + 1, -e])
+        elif x < 55:    # close together, around the tolerance
+            e = loguniform(r, 1, r.choice([20, 64, 128, bits])) * r.choice([1, 1, 1, -1])
+            rel = r.choice([0, 1, 2, 3, 6, 10, 15])
+            a = e + r.choice([1, -1]) * (abs(e) // 10 ** rel + r.range(-2, 2)) if rel else e + r.range(-3, 3)
+        elif x < 90:
+            e = loguniform(r, 1, r.choice([20, 64, bits])) * r.choice([1, 1, 1, -1])
+            a = loguniform(r, 1, r.choice([20, 64, bits])) * r.choice([1, 1, 1, -1])
+        else:           # overflowing differences
+            e = r.choice([1, -1]) * loguniform(r, bits, bits + 2)
+            a = r.choice([1, -1]) * loguniform(r, bits, bits + 2)
+        if op == "cmp_int" and (abs(e).bit_length() > 256 or abs(a).bit_length() > 256):
+            continue
+        near = int(abs(e - a) * to_dec)
+        tol = gen_tol(r, unit, near)
+        if r.chance(1, 4) and min(abs(e), abs(a)) > 0:     # multiplicative tolerance right at the quotient
+            tol[2], tol[3] = 1, max(0, int(Fraction(abs(e - a), min(abs(e), abs(a))) * P18) + r.range(-1, 1))
+        out.append(mk(op, e, a, *tol))
+    return out
+
+
+def py_bd_mul(a, b):
+    """BigDec.Mul: product chopped to 36 decimals, half to even (re-derived here from the documented rounding, not from the Coq model)"""
+    x = a * b
+    q, rem = divmod(abs(x), P36)
+    if 2 * rem > P36 or (2 * rem == P36 and q % 2 == 1):
+        q += 1
+    return q if x >= 0 else -q
+
+
+def search_f(op, kind, p1, p2, p3, x):
+    """the searched functions of harness/c13drv, exactly (None = the function fails there)"""
+    if op == "bsearch":
+        if kind == 0:
+            return p1 * x + p2
+        if kind == 1:
+            return x * x * x * p1 + p2
+        if kind == 2:
+            return p2 if x < p1 else p3
+        return None if x > p3 else p1 * x + p2
+    if kind == 0:
+        return py_bd_mul(p1, x) + p2
+    if kind == 1:
+        return py_bd_mul(py_bd_mul(py_bd_mul(x, x), x), p1) + p2
+    return p2 if x < p1 else p3
+
+
+def gen_bsearch(r, n, op):
+    """kind p1 p2 p3 lo hi target hasAdd add hasMul mul dir maxIter"""
+    unit = 1 if op == "bsearch" else P36
+    out = []
+    while len(out) < n:
+        kind = r.choice([0, 0, 0, 1, 1, 2, 3]) if op == "bsearch" else r.choice([0, 0, 1, 1, 2])
+        xbits = r.choice([10, 20, 40, 64]) if op == "bsearch" else r.choice([100, 125, 140, 180])
+        if kind == 1:
+            xbits = min(xbits, 60 if op == "bsearch" else 150)
+        lo = r.choice([0, 0, 1, loguniform(r, 1, xbits), -loguniform(r, 1, xbits)])
+        hi = lo + loguniform(r, 1, xbits)
+        p1 = (r.range(1, 1000) if op == "bsearch" else loguniform(r, 100, 130)) * (-1 if r.chance(1, 12) else 1)
+        p2 = r.range(-1000, 1000) * unit
+        p3 = r.range(-1000, 1000) * unit
+        xs = r.range(lo, hi) if r.chance(5, 6) else hi + r.range(1, 1000)     # a solution inside / outside the range
+        if kind == 2:
+            p1 = xs
+        if kind == 3:
+            p3 = r.choice([hi, xs + r.range(-5, 5), (lo + hi) // 2 - 1])
+        fx = search_f(op, kind, p1, p2, p3, xs)
+        if fx is None:
+            fx = p1 * xs + p2
+        target = fx + r.choice([0, 0, 0, 1, -1, r.range(-50, 50), r.range(-50, 50) * unit // 10 ** 6])
+        if kind == 2 and r.chance(1, 2):
+            target = r.choice([p2, p3])
+        tol = gen_tol(r, unit)
+        if r.chance(1, 2):      # tolerances of the size of one input step's image
+            step = abs(p1) if op == "bsearch" else abs(p1) // 10 ** r.choice([18, 24, 30, 36])
+            tol[0], tol[1] = 1, r.choice([0, step * (P18 if op == "bsearch" else 1) // (1 if op == "bsearch" else P18) + r.range(0, 3), r.range(0, 10 ** 6)])
+        maxit = r.choice([0, 1, 3, 10, 30, 70, 70, 70, 256 if op == "bsearch" else 200, r.range(1, 100), -1])
+        if r.chance(1, 40) and op == "bsearch":     # lower + upper overflows 256 bits
+            hi = 2 ** 256 - 1 - r.range(0, 3)
+            lo = hi - r.range(0, 100)
+        if op == "bsearch" and max(abs(v).bit_length() for v in (lo, hi, target)) > 256:
+            continue
+        out.append(mk(op, kind, p1, p2, p3, lo, hi, target, *tol, maxit))
+    return out
+
+
 GENERATORS = {
     "sigfig": gen_sigfig,
+    "cmp_int": lambda r, n: gen_cmp(r, n, "cmp_int"),
+    "cmp_bd": lambda r, n: gen_cmp(r, n, "cmp_bd"),
+    "cmp_dec": lambda r, n: gen_cmp(r, n, "cmp_dec"),
+    "bsearch": lambda r, n: gen_bsearch(r, n, "bsearch"),
+    "bsearch_bd": lambda r, n: gen_bsearch(r, n, "bsearch_bd"),
     "sqrt": lambda r, n: gen_sqrt(r, n, "sqrt"),
     "sqrt_bd": lambda r, n: gen_sqrt(r, n, "sqrt_bd"),
 }
-COUNTS = {"quick": {"sqrt": 1500, "sqrt_bd": 1500, "sigfig": 3000},
-          "thorough": {"sqrt": 40000, "sqrt_bd": 40000, "sigfig": 60000}}
+COUNTS = {"quick": {"sqrt": 1500, "sqrt_bd": 1500, "sigfig": 3000, "cmp_int": 1000, "cmp_bd": 1000, "cmp_dec": 1000,
+                    "bsearch": 1500, "bsearch_bd": 800},
+          "thorough": {"sqrt": 40000, "sqrt_bd": 40000, "sigfig": 60000, "cmp_int": 30000, "cmp_bd": 30000, "cmp_dec": 30000,
+                       "bsearch": 30000, "bsearch_bd": 16000}}
 
 
 def gen_cases(seed, tier, ops=None, scale=1):
@@ -328,8 +445,76 @@ def oracle_sigfig(c, o):
     return out
 
 
+def tol_verdict(unit, e, a, tol):
+    """does `a` meet the tolerance around the expected value `e` on the requested side?  e, a raw integers of a type with
+    `unit` raw units per 1; tol = (hasAdd, add, hasMul, mul, dir) with Dec tolerances.  Returns None if it does, else the reason.
+    The implementation rounds the relative error to the type's precision before comparing: one ulp of slack there."""
+    has_add, add, has_mul, mul, d = tol
+    if d == 2 and e < a:
+        return "wrong side: RoundDown requires expected >= actual"
+    if d == 1 and e > a:
+        return "wrong side: RoundUp requires expected <= actual"
+    if e == a:
+        return None
+    diff = Fraction(abs(e - a), unit)
+    if has_add and diff > Fraction(add, P18):
+        return "|expected - actual| = %s exceeds the additive tolerance %s" % (float(diff), float(Fraction(add, P18)))
+    if has_mul and mul != 0:
+        mn = min(abs(e), abs(a))
+        if mn == 0:
+            return "relative error undefined (one side is zero, the other is not)"
+        slack = Fraction(1, P18 if unit in (1, P18) else P36)
+        if Fraction(abs(e - a), mn) > Fraction(mul, P18) + slack:
+            return "relative error %s exceeds the multiplicative tolerance %s" % (float(Fraction(abs(e - a), mn)), float(Fraction(mul, P18)))
+    return None
+
+
+def oracle_cmp(c, o, unit):
+    a = args_of(c)
+    e, act, tol = a[0], a[1], a[2:7]
+    if o["st"] != 0:
+        return []               # range panics are loud
+    res = int(o["v"][0])
+    if res == 0:
+        why = tol_verdict(unit, e, act, tol)
+        if why:
+            return [viol(c, o, "Compare returned 0 (within tolerance) but " + why, kind="compare_accepts")]
+    elif (res > 0 and e < act) or (res < 0 and e > act) or res not in (-1, 1):
+        return [viol(c, o, "Compare returned %d for expected %s actual" % (res, "<" if e < act else ">"), kind="compare_sign")]
+    return []
+
+
+def oracle_bsearch(c, o):
+    op = c["op"]
+    unit = 1 if op == "bsearch" else P36
+    a = args_of(c)
+    kind, p1, p2, p3, lo, hi, target = a[:7]
+    tol, maxit = a[7:12], a[12]
+    if o["st"] != 0:
+        return []               # non-convergence / function error / range panic: reported, not a wrong answer
+    x = int(o["v"][0])
+    out = []
+    if lo <= hi and not (lo <= x <= hi):
+        out.append(viol(c, o, "returned input %d outside [lowerbound, upperbound]" % x, kind="search_out_of_range"))
+    if maxit <= 0:
+        out.append(viol(c, o, "returned a value with maxIterations = %d" % maxit, kind="search_iterations"))
+    fx = search_f(op, kind, p1, p2, p3, x)
+    if fx is None:
+        out.append(viol(c, o, "returned input %d where the searched function fails" % x, kind="search_f_error"))
+        return out
+    why = tol_verdict(unit, target, fx, tol)
+    if why:
+        out.append(viol(c, o, "returned input %d with image %d, target %d: %s" % (x, fx, target, why), kind="search_tolerance"))
+    return out
+
+
 ORACLES = {
     "sigfig": oracle_sigfig,
+    "cmp_int": lambda c, o: oracle_cmp(c, o, 1),
+    "cmp_bd": lambda c, o: oracle_cmp(c, o, P36),
+    "cmp_dec": lambda c, o: oracle_cmp(c, o, P18),
+    "bsearch": oracle_bsearch,
+    "bsearch_bd": oracle_bsearch,
     "sqrt": lambda c, o: oracle_sqrt(c, o, P18),
     "sqrt_bd": lambda c, o: oracle_sqrt(c, o, P36),
 }
@@ -477,7 +662,30 @@ PERTURB = {   # op -> list of (label, function(case, obs) -> perturbed obs or No
     "sqrt": [("root+1", lambda c, o: _bump(o, 1)), ("root-1", lambda c, o: _bump(o, -1) if int(o["v"][0]) > 0 else None)],
     "sqrt_bd": [("root+1", lambda c, o: _bump(o, 1)), ("root-1", lambda c, o: _bump(o, -1) if int(o["v"][0]) > 0 else None)],
     "sigfig": [("one more unit of the kept digit", lambda c, o: _sigfig_perturb(c, o))],
+    "cmp_int": [("non-zero verdict replaced by 0", lambda c, o: _cmp_perturb(c, o, 1))],
+    "cmp_bd": [("non-zero verdict replaced by 0", lambda c, o: _cmp_perturb(c, o, P36))],
+    "cmp_dec": [("non-zero verdict replaced by 0", lambda c, o: _cmp_perturb(c, o, P18))],
+    "bsearch": [("returned input moved off the solution", lambda c, o: _search_perturb(c, o))],
+    "bsearch_bd": [("returned input moved off the solution", lambda c, o: _search_perturb(c, o))],
 }
+
+
+def _cmp_perturb(c, o, unit):
+    a = args_of(c)
+    if int(o["v"][0]) == 0 or tol_verdict(unit, a[0], a[1], a[2:7]) is None:
+        return None     # (a non-zero verdict on values that do meet the tolerance, e.g. Compare(0,0): nothing to flag)
+    return dict(o, v=["0"])
+
+
+def _search_perturb(c, o):
+    a = args_of(c)
+    unit = 1 if c["op"] == "bsearch" else P36
+    for delta in (1, -1, 1000, -1000, unit, -unit, 10 ** 6 * unit):
+        x = int(o["v"][0]) + delta
+        fx = search_f(c["op"], a[0], a[1], a[2], a[3], x)
+        if fx is None or tol_verdict(unit, a[6], fx, a[7:12]) is not None or not (a[4] <= x <= a[5]):
+            return dict(o, v=[str(x)])
+    return None
 
 
 def _sigfig_perturb(c, o):
